@@ -129,6 +129,15 @@ def check_cds(spec, ctx):
         mseqs = [rm.seq_image(g, c, strand).upper() for c in model]
     ctx.eq("codon_locations", got, model)
     ctx.eq("num_codons", cds.num_codons, len(model))
+    # the same CDS annotated with GFF3 phases instead of frames (phase = bases to skip to the next codon start: 0 -> 0, frame 1 -> 2,
+    # frame 2 -> 1) is the same CDS
+    try:
+        from inscripta.biocantor.gene.cds_frame import CDSPhase as _Ph
+        by_phase = CDSInterval([b[0] for b in bl], [b[1] for b in bl], STRAND[strand], [_Ph({0: 0, 1: 2, 2: 1}[f]) for f in frames], parent_or_seq_chunk_parent=parent)
+        ctx.eq("codon_locations_from_phases", codon_triples(by_phase.chromosome_codon_locations), model)
+        ctx.eq("frames_from_phases", [f.value for f in by_phase.frames], list(frames))
+    except (BioCantorException, ValueError) as e:
+        ctx.fail("cds_from_phases_refused", repr(e)[:120])
     ctx.true("codon_location_strand", all(rm.loc_strand(l) == strand for l in cds.chromosome_codon_locations))
     # (2) fast path on a fresh object
     cds2 = fresh()
